@@ -514,4 +514,12 @@ def check_nested(k1: int, k2: int, k3: int, n_ids: int, wrap: int) -> bool:
     x = 0.6 + 0.05 * np.arange(n)
     vn, vf = hn(x), hf(x)
     ok = ok and (vn == vf or abs(vn - vf) <= 1e-9 * (1 + abs(vf)))
+    # gradients: one entry per reported parameter, the same as for the flat
+    # composition (reduced form of the population model and likelihood)
+    sn, gn = hn.evaluateS1(x)
+    sf, gf = hf.evaluateS1(x)
+    ok = ok and np.shape(gn) == (n,) == np.shape(gf)
+    if np.isfinite(vf):
+        ok = ok and bool(np.allclose(gn, gf, rtol=1e-9, atol=1e-12,
+                                     equal_nan=True))
     return bool(ok)
